@@ -125,7 +125,7 @@ class Bank(collections.namedtuple('Bank', 'provider, paths')):
                 return
 
     def __new__(cls):
-        return super().__new__(cls, dict(), set())  # pylint: disable=use-dict-literal
+        return super().__new__(cls, dict(), dict())  # pylint: disable=use-dict-literal  (paths as an ordered set)
 
     def add(self, provider: type['Service'], alias: typing.Optional[Alias], paths: set[Path]):
         """Push package to lazy loading stack.
@@ -143,7 +143,7 @@ class Bank(collections.namedtuple('Bank', 'provider, paths')):
                 if provider == self.provider[ref]:
                     continue
                 raise forml.UnexpectedError(f'Provider reference collision ({ref})')
-        self.paths.update(paths)
+        self.paths.update(dict.fromkeys(paths))
         if isabstract(provider):
             return
         for ref in references:
@@ -245,6 +245,6 @@ class Service(metaclass=Meta):
             if isabstract(cls):
                 raise forml.UnexpectedError(f'Provider reference ({alias}) illegal on abstract class')
             alias = Alias(alias)
-        path = {Bank.Path(p, explicit=True) for p in path or []}
+        path = tuple(Bank.Path(p, explicit=True) for p in path or [])
         for parent in (p for p in cls.__mro__ if issubclass(p, Service) and p is not Service):
             BANK[parent].add(cls, alias, path)
